@@ -623,6 +623,111 @@ func settle(c *core.Case, rd *reader, n int, base map[string]stall.Parked, when 
 	return true
 }
 
+// twoWriters: goroutine A's packet waits for its acknowledgement (A holds the
+// Conn's write lock), goroutine B queues behind it with a Write of its own;
+// the speaker closes the stream and only then acknowledges A's packet.  B's
+// bytes cannot be delivered any more: its Write (or, failing that, the calls
+// that follow) has to say so.
+func twoWriters(c *core.Case, rs *rawSendCase, rp *rawPeer, conn *ibb.Conn, sid string, base map[string]stall.Parked) {
+	a, b := payload(rs.PayloadSeed, 0, 4), payload(rs.PayloadSeed, 1, 5)
+	ares := make(chan error, 1)
+	go func() {
+		var err error
+		c.Guard("ibb.Conn.Write(A)", func() {
+			if _, err = conn.Write(a); err == nil {
+				err = conn.Flush()
+			}
+		})
+		ares <- err
+	}()
+	isData := func(n *xmltree.Node) bool { d := n.Child(nsIBB, "data"); return d != nil && n.Attr("type") == "set" }
+	first := rp.expect(isData, hardLimit)
+	if first == nil {
+		c.Inconclusive("two writers: the first packet never came")
+		return
+	}
+	type bres struct {
+		n                int
+		werr, ferr, cerr error
+	}
+	bch := make(chan bres, 1)
+	gid := make(chan string, 1)
+	go func() {
+		gid <- goroutineID()
+		var r bres
+		c.Guard("ibb.Conn.Write(B)", func() {
+			r.n, r.werr = conn.Write(b)
+			if rs.BFlushes {
+				r.ferr = conn.Flush()
+			}
+			r.cerr = conn.Close()
+		})
+		bch <- r
+	}()
+	bID := <-gid
+	// B is queued on the Conn's write lock
+	queued := false
+	for dl := time.Now().Add(grace); time.Now().Before(dl) && !queued; time.Sleep(500 * time.Microsecond) {
+		for _, pk := range stall.Snapshot(func(fn string) bool { return strings.HasPrefix(fn, "ibb.(*Conn).") }) {
+			if pk.ID == bID && strings.Contains(pk.State, "Mutex") {
+				queued = true
+			}
+		}
+	}
+	if queued {
+		c.Count("second_writer_queued_behind_unacknowledged_packet", 1)
+	}
+	if rep := rp.closeSID(sid); rep == nil || rep.Attr("type") != "result" {
+		c.Violate("ibb:close:refused", "<close/> while a packet was unacknowledged and a second writer queued was answered with %v", rep)
+		return
+	}
+	rp.send(fmt.Sprintf(`<iq type='result' id='%s' from='%s' to='%s'/>`, first.Attr("id"), peerAddr, libAddr))
+	var aerr error
+	var rb bres
+	for got := 0; got < 2; {
+		select {
+		case aerr = <-ares:
+			got++
+		case rb = <-bch:
+			got++
+		case <-time.After(20 * time.Millisecond):
+			// whatever the writers still send is refused: the stream is gone here
+			for {
+				m := rp.expect(func(n *xmltree.Node) bool { return isData(n) || n.Child(nsIBB, "close") != nil }, 0)
+				if m == nil {
+					break
+				}
+				if m.Name.Local == "iq" {
+					rp.send(fmt.Sprintf(`<iq type='error' id='%s' from='%s' to='%s'><error type='cancel'><item-not-found xmlns='%s'/></error></iq>`, m.Attr("id"), peerAddr, libAddr, nsStanzas))
+				}
+			}
+			if pk := findWedged(base); pk != nil {
+				c.Violate(stall.Key(*pk), "two writers, peer close in between: a library goroutine is parked for good:\n%s", pk.Stack)
+				return
+			}
+		}
+	}
+	if !rp.barrier() {
+		c.Violate("ibb:session-ended:two-writers", "after two writers and a peer close in between the session no longer answers")
+		return
+	}
+	_ = aerr
+	// What reached the transport after the first packet?
+	sent := onWire(rp.p.Lib.Written(), sid)
+	delivered := sent >= len(a)+len(b)-(len(a)+len(b))%3
+	reported := rb.werr != nil || rb.ferr != nil || rb.cerr != nil
+	switch {
+	case rb.werr == nil && rb.n == len(b) && !reported && !delivered:
+		c.Violate("ibb:loss:write-accepted-on-closed-stream", "writer B's Write of %d bytes returned (%d, nil) after the peer had closed the stream (B was queued behind A's unacknowledged packet: %v); Flush called: %v; Close returned nil; of the %d bytes written by A and B only %d ever reached the transport: B's bytes are lost and no call said so",
+			len(b), rb.n, queued, rs.BFlushes, len(a)+len(b), sent)
+	case reported:
+		c.Count("second_writer_told_stream_is_closed", 1)
+	}
+	c.Count("two_writer_cases", 1)
+	c.Count("raw_receiver_transfers", 1)
+	c.Sig("raw-send two-writers queued=%v bflush=%v reported=%v", queued, rs.BFlushes, reported)
+}
+
 // ---------------------------------------------------------------------------
 // raw-send: the library opens towards the raw speaker
 
@@ -637,6 +742,33 @@ type rawSendCase struct {
 	// CloseAt > 0: instead of acknowledging that data packet (1-based) the
 	// speaker sends <close/>, and acknowledges afterwards.
 	CloseAt int `json:"peer_closes_instead_of_acking_packet,omitempty"`
+	// RefuseAt > 0: that data IQ (1-based) is answered with type='error' in the
+	// given shape instead of a result.
+	RefuseAt    int    `json:"refuse_packet,omitempty"`
+	RefuseShape string `json:"refusal_shape,omitempty"`
+	// TwoWriters: two goroutines write to the one Conn; the speaker withholds
+	// the first packet's acknowledgement, closes the stream, then acknowledges.
+	TwoWriters bool `json:"two_writers,omitempty"`
+	BFlushes   bool `json:"second_writer_flushes,omitempty"`
+}
+
+// errorShapes: ways of answering a data IQ with type='error'.
+var errorShapes = []string{"well-formed", "no-error-child", "echo-only", "bad-by-attribute", "empty-error"}
+
+func errorReply(shape, id string, req *xmltree.Node) string {
+	head := fmt.Sprintf(`<iq type='error' id='%s' from='%s' to='%s'>`, id, peerAddr, libAddr)
+	switch shape {
+	case "no-error-child":
+		return head + "</iq>"
+	case "echo-only":
+		d := req.Child(nsIBB, "data")
+		return head + fmt.Sprintf(`<data xmlns='%s' seq='%s' sid='%s'>%s</data></iq>`, nsIBB, d.Attr("seq"), d.Attr("sid"), d.Text())
+	case "bad-by-attribute":
+		return head + fmt.Sprintf(`<error type='cancel' by='@@not a jid@@/'><item-not-found xmlns='%s'/></error></iq>`, nsStanzas)
+	case "empty-error":
+		return head + "<error/></iq>"
+	}
+	return head + fmt.Sprintf(`<error type='wait'><resource-constraint xmlns='%s'/></error></iq>`, nsStanzas)
 }
 
 var refusals = [][2]string{
@@ -644,8 +776,12 @@ var refusals = [][2]string{
 	{"resource-constraint", "modify"}, {"forbidden", "auth"}, {"item-not-found", "cancel"},
 }
 
-func genRawSend(r *rand.Rand, tier string) *rawSendCase {
+func genRawSend(r *rand.Rand, tier string, idx int) *rawSendCase {
 	rs := &rawSendCase{Kind: "raw-send", PayloadSeed: r.Int63()}
+	if (idx/10)%5 == 0 {
+		rs.Carrier, rs.Block, rs.TwoWriters, rs.BFlushes = "iq", 4, true, r.Intn(3) == 0
+		return rs
+	}
 	rs.Block = blockSizes[r.Intn(len(blockSizes))]
 	rs.Carrier = "iq"
 	if rs.Block != 0 && r.Intn(2) == 0 {
@@ -661,14 +797,20 @@ func genRawSend(r *rand.Rand, tier string) *rawSendCase {
 		maxLen = eb * maxPk
 	}
 	rs.Dir = genDir(r, rs.Block, maxLen, 2*maxPk)
-	if rs.Carrier == "iq" && r.Intn(3) == 0 {
-		rs.CloseAt = 1 + r.Intn(3)
+	if rs.Carrier == "iq" {
+		switch r.Intn(3) {
+		case 0:
+			rs.CloseAt = 1 + r.Intn(3)
+		case 1:
+			rs.RefuseAt = 1 + r.Intn(3)
+			rs.RefuseShape = errorShapes[r.Intn(len(errorShapes))]
+		}
 	}
 	return rs
 }
 
 func runRawSend(c *core.Case) {
-	rs := genRawSend(c.Rand, c.Tier)
+	rs := genRawSend(c.Rand, c.Tier, c.Index)
 	c.Sample(rs)
 	execRawSend(c, rs)
 }
@@ -743,12 +885,29 @@ func execRawSend(c *core.Case, rs *rawSendCase) {
 		c.Violate("ibb:open:failed-though-accepted", "the peer answered <open/> with a result, Open returned %v", o.err)
 		return
 	}
+	if rs.TwoWriters {
+		twoWriters(c, rs, rp, o.conn, sid, base)
+		return
+	}
 	data := payload(rs.PayloadSeed, 0, rs.Dir.Len)
 	wres := make(chan error, 1)
 	go func() {
 		var err error
 		c.Guard("ibb.Conn.Write", func() {
-			err = writeAll(o.conn, data, rs.Dir.Steps)
+			// when Flush has returned, the complete groups written so far are in
+			// packets handed to the transport
+			nflush := 0
+			err = writeAll(o.conn, data, rs.Dir.Steps, func(off int) error {
+				if nflush++; nflush > 3 {
+					return nil
+				}
+				if got, need := onWire(rp.p.Lib.Written(), sid), off-off%3; got < need {
+					c.Violate("ibb:flush:not-delivered:"+rs.Carrier, "library → raw receiver (%s, block %d): %d bytes written and Flush returned nil, but only %d of the %d complete-group bytes are in packets handed to the transport", rs.Carrier, rs.Block, off, got, need)
+					return errStop
+				}
+				c.Count("flush_checkpoints", 1)
+				return nil
+			})
 			if err == nil {
 				if e := o.conn.Close(); e != nil {
 					err = fmt.Errorf("Close: %v", e)
@@ -789,19 +948,48 @@ func execRawSend(c *core.Case, rs *rawSendCase) {
 		}
 	}
 	peerClosed := false
+	refusedPacket := false
+	writerBack := false
 	var werr error
+	deadline := time.Now().Add(hardLimit)
 	for {
-		n := rp.expect(isStreamEl, hardLimit)
+		n := rp.expect(isStreamEl, 20*time.Millisecond)
 		if n == nil {
-			c.Inconclusive("raw receiver: no <close/> after %d packets", npk)
-			return
+			// has the writer given up (a refused packet, a decided checkpoint)?
+			select {
+			case werr = <-wres:
+				writerBack = true
+			default:
+			}
+			if writerBack {
+				break
+			}
+			if time.Now().After(deadline) {
+				c.Inconclusive("raw receiver: no <close/> after %d packets", npk)
+				return
+			}
+			continue
 		}
+		deadline = time.Now().Add(hardLimit)
 		if cl := n.Child(nsIBB, "close"); cl != nil {
 			if cl.Attr("sid") != sid && problem == "" {
 				problem = fmt.Sprintf("<close/> names sid %q, the stream is %q", cl.Attr("sid"), sid)
 			}
 			ack(n)
 			break
+		}
+		if rs.RefuseAt > 0 && npk+1 == rs.RefuseAt && n.Name.Local == "iq" && !refusedPacket {
+			// this packet is refused: it does not count as received, and the
+			// writer has to learn of it
+			refusedPacket = true
+			npk++
+			want = (want + 1) % 65536
+			rp.send(errorReply(rs.RefuseShape, n.Attr("id"), n))
+			c.Count("data_iq_refused_"+rs.RefuseShape, 1)
+			if rs.RefuseShape != "well-formed" {
+				c.Count("malformed_refusals_of_data_iq", 1)
+			}
+			continue
 		}
 		takeData(n)
 		if rs.CloseAt > 0 && npk == rs.CloseAt && n.Name.Local == "iq" {
@@ -866,16 +1054,31 @@ func execRawSend(c *core.Case, rs *rawSendCase) {
 		}
 		ack(n)
 	}
-	if !peerClosed {
+	if !peerClosed && !writerBack {
 		select {
 		case werr = <-wres:
 		case <-time.After(hardLimit):
 			c.Inconclusive("raw receiver: the writer did not return after its <close/> was answered")
 			return
 		}
-		if werr != nil {
-			c.Violate("ibb:write:error", "raw receiver acknowledged everything, yet the writer failed: %v", werr)
+	}
+	if werr == errStop {
+		return
+	}
+	if refusedPacket {
+		// a packet answered with type='error', whatever else the answer looks
+		// like, was not taken: some call of the writer has to say so
+		if werr == nil {
+			c.Violate("ibb:write:refusal-ignored:"+rs.RefuseShape, "library → raw receiver (iq, block %d): data IQ %d was answered with type='error' (%s), yet every Write, Flush and the Close returned nil", rs.Block, rs.RefuseAt, rs.RefuseShape)
+		} else {
+			c.Count("refused_packet_reported_to_writer", 1)
 		}
+		c.Count("raw_receiver_transfers", 1)
+		c.Sig("raw-send refuse-packet shape=%s reported=%v", rs.RefuseShape, werr != nil)
+		return
+	}
+	if !peerClosed && werr != nil {
+		c.Violate("ibb:write:error", "raw receiver acknowledged everything, yet the writer failed: %v", werr)
 	}
 	if problem != "" {
 		key := "ibb:seq:numbering"
